@@ -8,6 +8,12 @@ CHECKS = {
  'C07': dict(level='model_checking', engine='seq-bfs', technique='explicit-state BFS over real OggVorbis_File states (history replay + canonical state hash), every transition executed on the implementation',
    text='Every history over the seek/read alphabet is explored breadth-first to a fix-point of the canonical state hash on 5 zoo files (single link, flushed pages, 3-link chain, chain with one-page and zero-sample links, non-zero initial granule); in every state the read-through is compared bit-for-bit with the linear decode at ov_pcm_tell. Bounded by the alphabets and files, exhaustive within them.',
    note='libogg binary, gcc -O2 build of the current tree; state hash drops dead buffer regions and bitrate statistics (argued in DESIGN 2.6, spot-validated by bisimulation probes)', ref='C07 / C08'),
+ 'C08': dict(level='model_checking', engine='seq-bfs', technique='explicit-state BFS over real OggVorbis_File states plus exhaustive target sweeps from seed states; landing rule judged on every transition',
+   text='Same state graph as C07 with out-of-range arguments added to the alphabet, explored to a fix-point; on every transition the landing rule of the call is judged (exact position for sample seeks, +-1 for time seeks, page-fence window for page seeks, EINVAL and unchanged canonical state for out-of-range arguments); in addition every p in [-1,L+1] is tried with ov_pcm_seek and ov_pcm_seek_page from each seed state. Page fence-posts come from an independent parse of the file.',
+   note='fence-posts from pylib Ogg parser; link lengths from construction; t==duration left unjudged', ref='C07 / C08'),
+ 'C20': dict(level='model_checking', engine='seq-bfs', technique='explicit-state BFS over real OggVorbis_File states with ov_halfrate toggles in the alphabet; differential against half-rate / full-rate linear decode',
+   text='BFS over histories of reads, seeks and half-rate toggles (depth-bounded in quick, deeper in thorough); in every state the read-through is bit-identical to the half-rate or full-rate linear decode at the reported position, totals unchanged, sample seeks land on the even position; linear half-rate decode delivers ceil(N/2) per link; streaming handles toggled before the first read.',
+   note='zoo links have even lengths; refusal on 64-sample-block links needs the synthesised stream (added with vspec)', ref='C20'),
 }
 NA_REASON = 'check not built yet in this session (work in progress; see DESIGN.md section 7 for the order)'
 
